@@ -24,6 +24,18 @@ def run(ctx, repo):
     ctx.rule('R2', 'inverse shape: (score / A) ** (1.0 / X), Z added for distances and subtracted-from for times; same table')
     ctx.rule('R3', 'negative targets are clamped to 0 before use')
     ctx.rule('R4', 'unknown key -> None guard dominates the table subscripts')
+    # the key itself is built without error whatever the arguments are (an unknown pair may well be None or a number)
+    from ..src import raw_param_text_ops
+    _m = repo.module(ATH)
+    if _m.has_func('scoring_key'):
+        _ops = raw_param_text_ops(_m.func('scoring_key'))
+        for _n, _msg in _ops:
+            ctx.finding('R4', '%s::scoring_key::key construction may raise' % ATH, ATH, _n.lineno,
+                        'scoring_key: %s, so an unknown gender / event pair that is not text is answered with an error, not with None' % _msg,
+                        "('M', None)")
+        if not _ops:
+            ctx.ok('R4', 'scoring_key builds the key with operations that accept any argument')
+
     ctx.rule('R5', 'GRID on score() and performance(): the forward function is exact on the 0.01 grid')
     ctx.rule('R6', 'no history: memo transparency; the shared coefficient rows are never changed in place')
     ctx.rule('R7', 'score() and performance() resolve every row of the table to the same coefficient row (hurdles remap on both sides or on neither)')
